@@ -716,7 +716,7 @@ struct C03Run {
     if (lm.bound) {
       uint64_t now = code.label_offset(L);
       if (now != lbl_off_before || now != lm.off || !code.is_label_bound(L)) {
-        viol(fmt("%s:ref-to-label-bound-in-other-section:label-offset-clobbered", P.arch == A_A64 ? "a64" : "x86"),
+        viol(fmt("ref-to-label-bound-in-other-section:label-offset-clobbered:%s", P.arch == A_A64 ? "a64" : "x86"),
              fmt("%s %s in section %d to a label bound at section %d offset %llu: label_offset() is 0x%llx afterwards", kArchName[P.arch], m.form.c_str(), cursec, lm.sec, (ull)lm.off, (ull)now));
         lm.poisoned = true; tainted = true; count_tainted = true;
       }
@@ -1011,7 +1011,7 @@ void C03Run::final_checks(Rng& r) {
     if (P.arch == A_A64) got = a64_disp(uint32_t(rd(fp, 4)), m.f);
     else got = sx(rd(fp, m.fsize), m.fsize * 8);
     if (!fits(m.f, want)) {
-      viol(fmt("%s:%s:%s:unrepresentable-not-reported", an, kKindName[m.s.kind], kFmtName[m.f]),
+      viol(fmt("unrepresentable-not-reported:%s:%s:%s", an, kFmtName[m.f], kKindName[m.s.kind]),
            fmt("%s %s: displacement %lld does not fit the %s field, yet emit/bind/resolve reported nothing and the reference is not counted as unresolved; field decodes to %lld", an, m.form.c_str(), (sll)want, kFmtName[m.f], (sll)got));
       continue;
     }
